@@ -30,6 +30,7 @@ type HarnessCfg struct {
 	Replay       string                    `json:"replay"` // native | none | driver:<TestName>
 	MapOrderDesc bool                      `json:"map_order_desc"`
 	MaxPaths     int                       `json:"max_paths"`
+	LockEvents   bool                      `json:"lock_events"`
 	Doc          string                    `json:"doc"`
 	Params       map[string]int            `json:"-"`
 }
@@ -469,6 +470,7 @@ func (e *Engine) runPath(h *HarnessCfg, fn *ssa.Function, prefix []int, solver *
 		globals: map[*ssa.Global]*Object{}, initRun: map[*ssa.Package]bool{}}
 	p.st.Funcs = map[string]int{}
 	p.st.Reached = map[string]bool{}
+	p.lockEvents = h.LockEvents
 	endKind = "done"
 	defer func() {
 		if r := recover(); r != nil {
